@@ -95,6 +95,37 @@ func (ft *fileTx) locOf(e ast.Expr) (t4loc, bool) {
 	return t4loc{}, false
 }
 
+// mapLoc: an element access of a map is an access of THE MAP (identity = the map itself, which
+// follows it through local aliases: `c := cache; c[k] = v` is a write of cache's map).
+func (ft *fileTx) mapLoc(ix *ast.IndexExpr) (t4loc, bool) {
+	t := ft.typeOf(ix.X)
+	if t == nil {
+		return t4loc{}, false
+	}
+	if _, ok := t.Underlying().(*types.Map); !ok {
+		return t4loc{}, false
+	}
+	root := chainRoot(ix.X)
+	if root == nil {
+		return t4loc{}, false
+	}
+	var declPos token.Pos
+	switch rv := ft.pkg.TypesInfo.Uses[root].(type) {
+	case *types.Var:
+		if !rv.IsField() && (rv.Pkg() == nil || rv.Parent() != rv.Pkg().Scope()) {
+			declPos = rv.Pos()
+		}
+	case *types.PkgName:
+	default:
+		return t4loc{}, false
+	}
+	safe := &ast.CallExpr{Fun: sel("zsim", "Safe"), Args: []ast.Expr{&ast.FuncLit{
+		Type: &ast.FuncType{Params: &ast.FieldList{}, Results: &ast.FieldList{List: []*ast.Field{{Type: &ast.InterfaceType{Methods: &ast.FieldList{}}}}}},
+		Body: &ast.BlockStmt{List: []ast.Stmt{&ast.ReturnStmt{Results: []ast.Expr{ix.X}}}},
+	}}}
+	return t4loc{obj: safe, field: "map", key: "map:" + types.ExprString(ix.X), declPos: declPos}, true
+}
+
 // writeTarget finds the location a left-hand side stores into.
 func (ft *fileTx) writeTarget(e ast.Expr) (t4loc, bool) {
 	switch x := e.(type) {
@@ -108,6 +139,22 @@ func (ft *fileTx) writeTarget(e ast.Expr) (t4loc, bool) {
 	return ft.locOf(e)
 }
 
+// mapWrite adds the write of a map whose element l stores into (or deletes).
+func (ft *fileTx) mapWrite(l ast.Expr, wr *[]t4loc) {
+	for {
+		if p, ok := l.(*ast.ParenExpr); ok {
+			l = p.X
+			continue
+		}
+		break
+	}
+	if ix, ok := l.(*ast.IndexExpr); ok {
+		if ml, ok := ft.mapLoc(ix); ok {
+			*wr = append(*wr, ml)
+		}
+	}
+}
+
 func (ft *fileTx) reads(e ast.Node, out *[]t4loc) {
 	if e == nil {
 		return
@@ -119,7 +166,13 @@ func (ft *fileTx) reads(e ast.Node, out *[]t4loc) {
 		case *ast.SelectorExpr:
 			if l, ok := ft.locOf(x); ok {
 				*out = append(*out, l)
-				return false
+				if l.obj == nil {
+					return false
+				}
+			}
+		case *ast.IndexExpr:
+			if l, ok := ft.mapLoc(x); ok {
+				*out = append(*out, l)
 			}
 		case *ast.Ident:
 			if l, ok := ft.locOf(x); ok {
@@ -189,6 +242,7 @@ func (ft *fileTx) t4Func(fd *ast.FuncDecl, fname string) bool {
 					if t, ok := ft.writeTarget(l); ok {
 						wr = append(wr, t)
 					}
+					ft.mapWrite(l, &wr)
 					if ix, ok := l.(*ast.IndexExpr); ok {
 						ft.reads(ix.Index, &rd)
 					}
@@ -201,12 +255,15 @@ func (ft *fileTx) t4Func(fd *ast.FuncDecl, fname string) bool {
 				if t, ok := ft.writeTarget(s.X); ok {
 					wr = append(wr, t)
 				}
+				ft.mapWrite(s.X, &wr)
 			case *ast.ExprStmt:
 				if call, ok := s.X.(*ast.CallExpr); ok {
 					if id, ok := call.Fun.(*ast.Ident); ok && id.Name == "delete" && len(call.Args) == 2 {
 						if t, ok := ft.writeTarget(call.Args[0]); ok {
 							wr = append(wr, t)
 						}
+						// delete(m, k): a write of the map m
+						ft.mapWrite(&ast.IndexExpr{X: call.Args[0], Index: call.Args[1]}, &wr)
 					}
 					if mu, lock, ok := ft.lockCall(call); ok {
 						ft.needSim = true
@@ -311,6 +368,7 @@ func (ft *fileTx) simple(st ast.Stmt, rd, wr *[]t4loc) {
 			if t, ok := ft.writeTarget(l); ok {
 				*wr = append(*wr, t)
 			}
+			ft.mapWrite(l, wr)
 			if ix, ok := l.(*ast.IndexExpr); ok {
 				ft.reads(ix.Index, rd)
 			}
